@@ -77,6 +77,16 @@ func (e errSF) SafeFormat(p redact.SafePrinter, verb rune) {
 func (e errSM) Error() string       { return "errSM:" + e.s }
 func (e errSM) SafeMessage() string { return "own-safemessage" }
 
+type (
+	errnoT     int      // an error of integer kind (like syscall.Errno)
+	strKindErr string   // an error of string kind
+	sliceErr   []string // an error of slice kind
+)
+
+func (e errnoT) Error() string     { return fmt.Sprintf("errno %d", int(e)) }
+func (e strKindErr) Error() string { return "strerr:" + string(e) }
+func (e sliceErr) Error() string   { return "sliceerr:" + strings.Join(e, ",") }
+
 type c17Err struct {
 	Name   string
 	V      error
@@ -91,6 +101,9 @@ var c17Errs = []c17Err{
 	{"error+Formatter", errFmtT{"ef"}, false},
 	{"errors.New", errors.New("new"), false},
 	{"pointer receiver", &ptrErr{"p"}, false},
+	{"integer-kind error", errnoT(2), false},
+	{"string-kind error", strKindErr("sk"), false},
+	{"slice-kind error", sliceErr{"a", "b"}, false},
 	{"error+SafeFormatter", errSF{"sf"}, true},
 	{"error+SafeMessager", errSM{"sm"}, true},
 }
@@ -383,10 +396,10 @@ func checkC17(c *Ctx) {
 		}
 	})
 	// several operands in one call: what precedes the error operand must not matter
-	c.Section("C17/hook-multi", map[string]interface{}{"preceding": len(c17Preceding), "errors": nE, "positions": nP, "verbs": "vsdxqw"}, len(c17Preceding)*nE, func(i int, w *Worker) {
+	c.Section("C17/hook-multi", map[string]interface{}{"preceding": len(c17Preceding), "errors": nE, "positions": nP, "verbs": "vsdxqwcUb"}, len(c17Preceding)*nE, func(i int, w *Worker) {
 		pi, e := i/nE, i%nE
 		for p := 0; p < nP; p++ {
-			for _, verb := range "vsdxqw" {
+			for _, verb := range "vsdxqwcUb" {
 				w.Eval()
 				if dt := c17EvalMulti(pi, e, p, verb, w.SeenS); dt != "" {
 					w.Fail("hook-multi", map[string]interface{}{"Pre": pi, "E": e, "Pos": p, "Verb": string(verb)}, dt)
